@@ -184,6 +184,17 @@ C06Rel(E, S, line) ==
           JoinAll([k \in DOMAIN E.singles |->
              Chk(E.singles[k].hits = <<>> \/ \E i \in DOMAIN E.unlimited : <<E.unlimited[i]>> = E.singles[k].hits,
                  line, "C06", "a record that is a hit on its own is missing from the unlimited list")])
+        ELSE NoRes,
+        \* stores too large to ask every record alone: the same two clauses on a sample of the records
+        IF Has(E, "singles_some") THEN
+          JoinAll([k \in DOMAIN E.singles_some |->
+             JoinAll(<<
+               Chk(Len(E.singles_some[k].hits) <= 1 /\ \A i \in DOMAIN E.singles_some[k].hits : E.singles_some[k].hits[i].id = E.singles_some[k].id,
+                   line, "C06", "singleton store returned something else than its record"),
+               Chk(E.singles_some[k].hits = <<>> \/ \E i \in DOMAIN E.unlimited : <<E.unlimited[i]>> = E.singles_some[k].hits,
+                   line, "C06", "a record that is a hit on its own is missing from the unlimited list"),
+               Chk(\A i \in DOMAIN E.unlimited : E.unlimited[i].id = E.singles_some[k].id => E.singles_some[k].hits = <<E.unlimited[i]>>,
+                   line, "C06", "hit differs from the verdict of its record alone") >>)])
         ELSE NoRes >>)
     ELSE NoRes >>)
 
